@@ -357,8 +357,9 @@ theorem c13_reflect_radau_control (L : RadauCtl.Lits K) (hz : L.zero = 0) (S : R
 /-- **BDF's control logic under time reflection**, from the start of `solve` through every pass (step-size limits and landing,
     the stagnation guard `x + 0.1·h == x`, reuse of the factorisation, the corrector loop, error test, order and step-size selection):
     for every list of answers of the numeric kernel and of the callback, the run over the mirrored span ends with the same
-    status and counters at the mirrored point.  (Before the repair f1a31fd the stagnation guard used |h| and this theorem was
-    false; `BdfCtl` is tied to bdf.rs by the X-bdf trace co-simulation.) -/
+    status and counters at the mirrored point.  (Exact arithmetic: the asymmetry repaired by f1a31fd — the stagnation guard with |h| —
+    lay in the spacing of binary64 numbers and is invisible here; sym-check's reflect-ulp-span family covers it.  `BdfCtl` is tied to
+    bdf.rs by the X-bdf trace co-simulation.) -/
 theorem c13_reflect_bdf_control (L : BdfCtl.Lits K) (hz : L.zero = 0) (S : BdfCtl.Setup K) (hne : S.xend ≠ S.x0)
     (os : List (BdfCtl.PassOracle K)) :
     (match BdfCtl.start L (BdfCtl.rSetup S) with
